@@ -293,6 +293,31 @@ UnsetCases ==
   {Case(EndOnly(<<>>, <<SDecl("funct", "f", fl)>> \o s1 \o <<SPrint(Call("f", <<arg>>)), SPrint(Lc("a"))>>), <<>>) :
        fl \in LamA, s1 \in {<<>>, <<SDecl("var", "a", EInt(50))>>}, arg \in {Oos("nosuch"), EInt(4), Lc("nolocal")}}
 
-Cases == CASE Family = "unset" -> UnsetCases [] Family = "multifor" -> MultiForCases [] Family = "hof" -> HofCases [] Family = "scope" -> ScopeCases [] Family = "func" -> FuncCases [] Family = "loops" -> LoopCases
+(***************************************************************************)
+(* "emitsnap": an emitted record is a snapshot.  What is emitted is what the *)
+(* variable held when the emit statement ran, whatever is assigned to the     *)
+(* variable (or inside it) afterwards -- by a later statement or for a later  *)
+(* record; the map may mix scalar and map-valued members in either order.     *)
+(***************************************************************************)
+RInit == {SAssign(O("r", <<>>), MapLit(<< <<EStr("n"), EInt(1)>>, <<EStr("m"), MapLit(<< <<EStr("x"), EInt(1)>> >>)>> >>)),
+          SAssign(O("r", <<>>), MapLit(<< <<EStr("m"), MapLit(<< <<EStr("x"), EInt(1)>> >>)>>, <<EStr("n"), EInt(1)>> >>)),
+          SAssign(O("r", <<>>), MapLit(<< <<EStr("n"), EInt(1)>>, <<EStr("a"), ArrLit(<<EInt(1), EInt(2)>>)>> >>))}
+REmit == {SEmit("r", <<>>), SEmit1(Oos("r"))}
+RMut == {SAssign(O("r", <<EStr("m"), EStr("x")>>), EInt(2)), SAssign(O("r", <<EStr("n")>>), EInt(5)), SAssign(O("r", <<EStr("m"), EStr("y")>>), EInt(3)),
+         SUnset(O("r", <<EStr("m"), EStr("x")>>)), SAssign(O("r", <<EStr("a"), EInt(1)>>), EInt(9)), SAssign(O("r", <<>>), MapLit(<< <<EStr("z"), EInt(0)>> >>))}
+Tally == <<SOp(O("r", <<EStr("n")>>), Idx(Oos("r"), <<EStr("n")>>), "+", EInt(1)),
+           SOp(O("r", <<EStr("by"), Fld("b")>>), Idx(Oos("r"), <<EStr("by"), Fld("b")>>), "+", Fld("a"))>>
+TallyMapFirst == <<Tally[2], Tally[1]>>
+\* The judgement of this family is a law, not the reference interpreter's output (how a map mixing scalars and maps is cut
+\* into records is not documented): "emit ... send[s] out-of-stream variables' current values to the output record stream",
+\* so what a program has emitted by some point is a PREFIX of everything it emits -- the output of the program cut after the
+\* emit (p0), or run on a prefix of the records (recs0), is a prefix of the output of the whole.
+LawCase(p, recs, p0, recs0) == [p |-> p, recs |-> recs, p0 |-> p0, recs0 |-> recs0, law |-> "prefix"]
+EmitSnapCases ==
+  {LawCase(EndOnly(<<>>, <<i, e1, m, e2>>), <<>>, EndOnly(<<>>, <<i, e1>>), <<>>) : i \in RInit, e1 \in REmit, m \in RMut, e2 \in REmit}
+  \cup {LawCase(Prog(<<>>, <<>>, t \o <<e>>, fin, TRUE), Recs2, Prog(<<>>, <<>>, t \o <<e>>, <<>>, TRUE), SubSeq(Recs2, 1, k)) :
+           t \in {Tally, TallyMapFirst}, e \in REmit, fin \in {<<>>, <<SEmit("r", <<>>)>>}, k \in {1, 2}}
+
+Cases == CASE Family = "emitsnap" -> EmitSnapCases [] Family = "unset" -> UnsetCases [] Family = "multifor" -> MultiForCases [] Family = "hof" -> HofCases [] Family = "scope" -> ScopeCases [] Family = "func" -> FuncCases [] Family = "loops" -> LoopCases
            [] Family = "records" -> RecordCases [] Family = "index" -> IndexCases [] Family = "expr" -> ExprCases
 =============================================================================
